@@ -97,7 +97,7 @@ func (v Version) StringWithoutEpoch() string {
 }
 
 func (v Version) String() string {
-	if v.Epoch > 0 {
+	if v.Epoch > 0 || strings.Contains(v.Version, ":") {
 		return fmt.Sprintf("%d:%s", v.Epoch, v.StringWithoutEpoch())
 	}
 	return v.StringWithoutEpoch()
